@@ -1101,12 +1101,12 @@ htp_status_t htp_tx_state_request_headers(htp_tx_t *tx) {
     if (tx->request_progress > HTP_REQUEST_HEADERS) {
         // Request trailers.
 
-        // Run hook HTP_REQUEST_TRAILER.
-        htp_status_t rc = htp_hook_run_all(tx->connp->cfg->hook_request_trailer, tx);
+        // Finalize sending raw header data.
+        htp_status_t rc = htp_connp_req_receiver_finalize_clear(tx->connp);
         if (rc != HTP_OK) return rc;
 
-        // Finalize sending raw header data.
-        rc = htp_connp_req_receiver_finalize_clear(tx->connp);
+        // Run hook HTP_REQUEST_TRAILER.
+        rc = htp_hook_run_all(tx->connp->cfg->hook_request_trailer, tx);
         if (rc != HTP_OK) return rc;
 
         // Completed parsing this request; finalize it now.
